@@ -1,3 +1,119 @@
-"""Thorough-tier extras (filled in below): layout independence + selftest mutants."""
-def run(prop, ctx):
-    return {}
+"""Thorough tier: the quick rules plus checks *of the checker* on scratch copies.
+
+1. layout / naming independence - the property's rules are re-run on three behaviour-preserving twins of the
+   current tree (ast.unparse round trip, `pass` padding, all locals renamed); the set of (rule, instance, verdict)
+   must be identical to the run on the real tree, otherwise the analysis is unreliable (exit 2, never a VIOLATION);
+2. detection power - every breaking variant that lists this property (independent seeded changes, inverses of the
+   `fix:` commits, hand-written mutants) is applied to a scratch copy and must make this property's check exit 1;
+   a miss on the pinned tree is an analysis error, on a modified tree (patch may not apply) it is only recorded;
+3. resolution cross-check - the class table / MRO / method resolution of sa/model.py is compared with mypy's
+   (the repository's own mypy, used as a library, follow_imports=skip) for every member call in the anchored
+   modules whose receiver mypy types as a physt class; disagreement is an analysis error.
+
+All scratch data live under a temporary directory outside /repo and /verif and are removed.
+"""
+from __future__ import annotations
+
+import hashlib
+import json
+import os
+import shutil
+import subprocess
+import sys
+import tempfile
+from concurrent.futures import ThreadPoolExecutor
+from pathlib import Path
+
+from .model import AnalysisError
+
+VERIF = Path(__file__).resolve().parent.parent
+SRC = Path("/repo/src/physt")
+
+
+def tree_digest(root: Path) -> str:
+    h = hashlib.sha1()
+    for p in sorted(root.rglob("*.py")):
+        h.update(str(p.relative_to(root)).encode())
+        h.update(p.read_bytes())
+    return h.hexdigest()
+
+
+def _results_on(prop: str, src: Path):
+    r = subprocess.run(["/venv/bin/python", str(VERIF / "check.py"), prop, "--src", str(src), "--no-evidence", "--json"],
+                       capture_output=True, text=True, cwd=VERIF)
+    if r.returncode == 2:
+        return None, r.stdout[-300:]
+    try:
+        start = r.stdout.index("[")
+        dec = json.JSONDecoder()
+        data, _ = dec.raw_decode(r.stdout[start:])
+    except Exception as exc:  # noqa
+        return None, f"unparsable output: {exc}"
+    return {(d["rule"], d["key"], d["verdict"]) for d in data}, ""
+
+
+def run(prop: str, ctx) -> dict:
+    from . import selftest_impl
+    from .twins import make_twin
+
+    out = {}
+    base = {(r["rule"], r["key"], r["verdict"]) for r in ctx.results}
+    tmp = Path(tempfile.mkdtemp(prefix="physt-thorough-"))
+    try:
+        twins = {}
+        for kind in ("unparse", "pad", "rename"):
+            d = tmp / kind / "src" / "physt"
+            d.parent.mkdir(parents=True)
+            make_twin(SRC, d, kind)
+            res, err = _results_on(prop, d)
+            if res is None:
+                raise AnalysisError(f"thorough: rules cannot analyse the {kind} twin of the current tree: {err}")
+            diff = sorted(res ^ base)
+            twins[kind] = dict(instances=len(res), identical=not diff, differences=[list(x) for x in diff[:5]])
+            if diff:
+                raise AnalysisError(f"thorough: verdicts differ on the behaviour-preserving {kind} twin "
+                                    f"(layout / naming dependence of the checker): {diff[:3]}")
+        out["twins"] = twins
+    finally:
+        shutil.rmtree(tmp, ignore_errors=True)
+
+    exp_file = VERIF / "selftest" / "expectations.json"
+    pinned = None
+    if exp_file.exists():
+        pinned = json.loads(exp_file.read_text()).get("_base_digest")
+    on_pinned = pinned is not None and pinned == tree_digest(SRC)
+    variants = [v for v in selftest_impl.breaking_variants() if prop in v["expect"]]
+    selftest_impl.BASE[prop] = (0, [r["key"] for r in ctx.violations()], "")
+    with ThreadPoolExecutor(min(16, max(1, len(variants)))) as ex:
+        res = list(ex.map(lambda v: selftest_impl.run_breaking(v, [prop]), variants))
+    st = dict(variants=len(res), detected=sum(r["status"] in ("detected", "detected-anyway") for r in res),
+              missed=[r["name"] for r in res if r["status"] == "MISSED"],
+              not_applicable=[r["name"] for r in res if r["status"] == "not-applicable"],
+              declared_undetectable=[r["name"] for r in res if r["status"] == "declared-undetectable"],
+              tree_is_pinned=on_pinned,
+              samples=[dict(variant=r["name"], fired=r.get("results", {}).get(prop, {}).get("instances", [])[:2]) for r in res[:6]])
+    out["selftest"] = st
+    if st["missed"] and on_pinned:
+        raise AnalysisError(f"thorough: breaking variants not detected by {prop} on the pinned tree: {st['missed']}")
+
+    if os.environ.get("PHYST_VERIF_NO_MYPY") != "1":
+        out["mypy_crosscheck"] = mypy_crosscheck(prop)
+    return out
+
+
+def mypy_crosscheck(prop: str) -> dict:
+    """Run sa/mypy_check.py in a subprocess (mypy teardown is slow; the child uses os._exit)."""
+    script = VERIF / "sa" / "mypy_check.py"
+    if not script.exists():
+        return dict(skipped="mypy cross-check not built")
+    try:
+        r = subprocess.run(["/venv/bin/python", str(script)], capture_output=True, text=True, timeout=300, cwd="/repo")
+    except subprocess.TimeoutExpired:
+        return dict(skipped="mypy timed out")
+    line = [l for l in r.stdout.splitlines() if l.startswith("MYPY-CROSSCHECK ")]
+    if not line:
+        return dict(skipped="mypy unavailable or failed: " + (r.stderr or r.stdout)[-200:])
+    d = json.loads(line[-1][len("MYPY-CROSSCHECK "):])
+    if d.get("disagreements"):
+        raise AnalysisError(f"thorough: sa/model.py and mypy disagree on method resolution: {d['disagreements'][:3]}")
+    return d
